@@ -31,7 +31,7 @@ func propC13(c *Ctx) {
 		})
 		// no other send on the queue anywhere
 		n := 0
-		for _, f := range c.P.Funcs {
+		for _, f := range c.ReviewedFuncs() {
 			for _, s := range Sites(f) {
 				if (s.Kind == "select" || s.Kind == "send") && strings.Contains(strings.Join(s.Args, " "), "echoRequests") {
 					n++
